@@ -170,7 +170,7 @@ def add_batch(u):
             && (forall|i: int| 0 <= i < r.len() ==> (#[trigger] r[i]).0@ == old(self).queue[i]@ && r[i].1 == old(self).sequences[i] && r[i].2 == old(self).queue_times[i])'''),
         ]),
         u.fn(B, 'reset', impl='BatchSender', sub='batch', ensures=[
-            C('C01+C02+C08.batch.reset.keeps_parallel_vectors_in_step', 'final(self).wf()'), C('C01.batch.reset.empties', 'final(self).queue.len() == 0'),
+            C('C01+C02+C05+C08.batch.reset.keeps_parallel_vectors_in_step', 'final(self).wf()'), C('C01.batch.reset.empties', 'final(self).queue.len() == 0'),
             'final(self).regime == old(self).regime', 'final(self).last_flush_ms == 0']),
     ]))
 
@@ -201,7 +201,7 @@ def add_congestion(u):
         u.fn(G, 'handle_nak', impl='CongestionControl', sub='acct', ret='r', qual='CongestionControl::handle_nak',
              requires=['win_ok(*old(window))'],
              ensures=[
-                 C('C05+C06+C10.acct.cc_handle_nak.window_minus_100_floor_1000', '*final(window) == (if *old(window) - 100 >= 1000 { *old(window) - 100 } else { 1000 })'),
+                 C('C03+C05+C06+C10.acct.cc_handle_nak.window_minus_100_floor_1000', '*final(window) == (if *old(window) - 100 >= 1000 { *old(window) - 100 } else { 1000 })'),
                  C('C06.acct.cc_handle_nak.never_increases', '*final(window) <= *old(window)'),
                  C('C06.acct.cc_handle_nak.in_range', 'win_ok(*final(window))'),
                  C('C05.acct.cc_handle_nak.one_loss_count', 'final(self).nak_count == sat_i32(old(self).nak_count + 1)'),
@@ -423,7 +423,8 @@ def add_connection(u):
           'final(self).rtt.waiting_for_keepalive_response == (old(self).rtt.waiting_for_keepalive_response || old(self).rtt.last_rtt_measurement_ms == 0 || sub_sat(now, old(self).rtt.last_rtt_measurement_ms) > 3000)'),
         C('C12+C14.reconn.keepalive_packet.frame', 'final(self).same_except_keepalive(old(self))'),
     ]))
-    F(u.fn(CONN, 'note_sent', impl='SrtlaConnection', sub='reconn', ensures=['*final(self) == (SrtlaConnection { last_sent: Some(now), ..*old(self) })']))
+    F(u.fn(CONN, 'note_sent', impl='SrtlaConnection', sub='reconn', ensures=[
+        C('C08+C14.reconn.conn.note_sent_stamps_the_send_clock_and_nothing_else', '*final(self) == (SrtlaConnection { last_sent: Some(now), ..*old(self) })')]))
     F(u.fn(CONN, 'get_smooth_rtt_ms', impl='SrtlaConnection', sub='select', ret='r', ensures=['r == spec_srtt(self.rtt.kalman_rtt.x)']))
     F(u.fn(CONN, 'get_rtt_min_ms', impl='SrtlaConnection', sub='select', ret='r', ensures=[C('C11.select.conn.get_rtt_min_ms_reads_the_documented_minimum', 'r == self.rtt.rtt_min_ms')]))
     F(u.fn(CONN, 'needs_rtt_measurement', impl='SrtlaConnection', sub='reconn', ret='r', ensures=[
@@ -495,7 +496,7 @@ def add_connection(u):
     F(u.fn(CONN, 'reset_core_state', impl='SrtlaConnection', sub='acct', ensures=S.RESET_CORE_ENSURES))
     F(u.fn(CONN, 'mark_for_recovery', impl='SrtlaConnection', sub='acct', ensures=S.RESET_CORE_ENSURES_PUBLIC('mark_for_recovery') + [
         # a reset link has no keepalive outstanding: an echo of a keepalive sent BEFORE the reset must not yield an RTT sample / delivery proof
-        C('C08+C14.acct.mark_for_recovery.cancels_the_outstanding_rtt_probe_and_keepalive_stamps',
+        C('C08+C09+C14.acct.mark_for_recovery.cancels_the_outstanding_rtt_probe_and_keepalive_stamps',
           '!final(self).rtt.waiting_for_keepalive_response && final(self).rtt.last_keepalive_sent_ms == 0 && final(self).last_keepalive_sent is None'),
         'final(self).last_received is None', 'final(self).reconnection.startup_grace_deadline_ms == 0',
         C('C08.acct.mark_for_recovery.keeps_the_retry_clock_the_backoff_and_the_establishment_stamp',
@@ -548,7 +549,7 @@ def add_connection(u):
            requires=['old(self).wf_count()', 'old(self).packet_log@.len() < 0x7fff_fff0'],
            ensures=[
                C('C02.acct.register_packet.adds_exactly_seq', 'final(self).packet_log@ == old(self).packet_log@.insert(seq, send_time_ms)'),
-               C('C02+C05.acct.register_packet.count_equals_set', 'final(self).wf_count()'),
+               C('C02+C05+C14.acct.register_packet.count_equals_set', 'final(self).wf_count()'),
                C('C02.acct.register_packet.keeps_log_above_high_water', 'old(self).above_hw() ==> final(self).above_hw()'),
                C('C02.acct.register_packet.frame', 'final(self).same_except_log_hw(old(self))'),
            ]))
@@ -569,7 +570,7 @@ def add_connection(u):
     F(u.fn(A, 'handle_srtla_ack_global', impl='SrtlaConnection', sub='acct',
            requires=['win_ok(old(self).window)'],
            ensures=[
-               C('C06+C10.acct.handle_srtla_ack_global.plus_one_capped', 'final(self).window as int == (if old(self).connected && old(self).last_received is Some { if old(self).window + 1 <= 60000 { old(self).window + 1 } else { 60000int } } else { old(self).window as int })'),
+               C('C06+C08+C10.acct.handle_srtla_ack_global.plus_one_capped', 'final(self).window as int == (if old(self).connected && old(self).last_received is Some { if old(self).window + 1 <= 60000 { old(self).window + 1 } else { 60000int } } else { old(self).window as int })'),
                C('C06.acct.handle_srtla_ack_global.in_range', 'win_ok(final(self).window)'),
                C('C02+C06.acct.handle_srtla_ack_global.frame', '*final(self) == (SrtlaConnection { window: final(self).window, ..*old(self) })'),
            ]))
